@@ -582,7 +582,8 @@ def parseSubscriptList : Nat → List Tok → PR Expr
   | 0, _ => none
   | f + 1, ts =>
     match parseSubscript f ts with
-    | some (s1, .op .rsqb :: r) => some (s1, r)
+    -- a single starred index is the tuple of one element (`x[*a]` = `x[(*a,)]`; /repo fix of `SubscriptList`)
+    | some (s1, .op .rsqb :: r) => if isStarred s1 then some (.tuple [s1], r) else some (s1, r)
     | some (s1, .op .comma :: .op .rsqb :: r) => some (.tuple [s1], r)
     | some (s1, .op .comma :: r) =>
       (match parseSubscripts f r with
